@@ -80,6 +80,30 @@ def ns_cases(ctx, n):
         out.append((stages.URIS[0], root, ctx.rng.choice(['', 'p_1']), t))
     return out
 
+INTERNAL_ATTRS = ['displaced', 'marker', 'placement', 'eId', 'name', 'id', 'href', 'src', 'by', 'status', 'refersTo', 'startQuote', 'colspan', 'rowspan']
+INTERNAL_VALUES = ['', ' footnote', ' x', ' 1', ' a b', ' #ref', ' bottom']
+INTERNAL_SHAPES = ['P%s text', 'P%s text {{FOOTNOTE 1}}\nFOOTNOTE 1\n  note', 'SEC%s 1 - Heading\n  text', 'PART%s\n  SEC 2\n    x', 'TABLE%s\n  TR%s\n    TC%s\n      cell',
+                   'CROSSHEADING%s a heading', 'ITEMS%s\n  ITEM%s (a)\n    x', 'BULLETS%s\n  * x', 'QUOTE%s\n  quoted', 'BLOCKS%s\n  x', 'LONGTITLE%s a title',
+                   'SCHEDULE%s heading\n  x', 'a line with {{abbr%s an abbreviation}} and {{inline%s y}} and {{+%s z}}', 'SPEECH%s\n  FROM someone\n  words',
+                   'DEBATESECTION%s 1 - h\n  SPEECH\n    FROM x\n    y', 'PREFACE%s\n  x', 'INTRODUCTION%s\n  x', 'SUBHEADING%s s']
+def internal_attr_cases(ctx, n):
+    """attribute lists that name what the pipeline uses for its own bookkeeping (the displaced/marker/placement hints of footnotes, eId, name,
+    href, by ...) - every name alone with every kind of value on every construct that takes attributes, then random pairs - x all roots:
+    legal XML names, so conversion must complete; implementation and model must agree on the document"""
+    out = []
+    def one(shape, at):
+        return shape.replace('%s', at, 1).replace('%s', '') if shape.count('%s') > 1 and ctx.rng.random() < 0.5 else shape.replace('%s', at)
+    for nm in INTERNAL_ATTRS:
+        for i, shape in enumerate(INTERNAL_SHAPES):
+            v = INTERNAL_VALUES[(i + len(nm)) % len(INTERNAL_VALUES)]
+            out.append((stages.URIS[0], gen.ROOTS6[(i + len(nm)) % 6], '', one(shape, '{%s%s}' % (nm, v)) + '\n'))
+    for _ in range(n):
+        root = ctx.rng.choice(gen.ROOTS6)
+        at = '{' + '|'.join(ctx.rng.choice(INTERNAL_ATTRS) + ctx.rng.choice(INTERNAL_VALUES) for _ in range(ctx.rng.randint(1, 3))) + '}'
+        body = '\n'.join(one(ctx.rng.choice(INTERNAL_SHAPES), at) for _ in range(ctx.rng.randint(1, 3)))
+        out.append((stages.URIS[0], root, ctx.rng.choice(['', 'p_1']), (gen.gen_doc(ctx.rng, root) + '\n' if ctx.rng.random() < 0.3 else '') + body + '\n'))
+    return out
+
 WITNESSES = [('act', 'SCHEDULES\n'), ('judgment', 'APPENDIXES x\n'), ('doc', 'a\x01b\n'), ('act', 'P{1 x} foo\n'), ('bill', 'P{a:b x} foo\n'),
              ('act', 'FOOTNOTE 1\n  x {{FOOTNOTE 1}}\n'), ('statement', 'ANNEXURE-A\n  x\n'), ('debateReport', 'x\n\x0e\ny\n')]
 
@@ -102,7 +126,7 @@ def correspondence(ctx):
         if r != want and not text.startswith(('P ', 'P.', 'P{')):
             ctx.failures.append(({'stage': 'e2e', 'uri': uri, 'root': root, 'prefix': prefix, 'text': text, 'exception': None},
                                  'a plain line did not become the one paragraph C01_plain_line_converts predicts: %r' % (r,)))
-    cs = cases(ctx, ctx.n(800, 60000)) + [(stages.URIS[0], r, '', t) for r, t in WITNESSES] + pl
+    cs = cases(ctx, ctx.n(800, 60000)) + [(stages.URIS[0], r, '', t) for r, t in WITNESSES] + pl + internal_attr_cases(ctx, ctx.n(150, 5000))
     ctx._docs = cs
     stages.stage_e2e(ctx, cs)
 
